@@ -5,6 +5,8 @@ The dispatch tables are regenerated from the translator's source on every run; t
 model visits every live child (as `get_rep` does) and fails at the first node it cannot express.
 -/
 import FaxVerif.C09.Model
+import FaxVerif.C09.Spec
+import FaxVerif.C15.Theorems
 namespace FaxVerif.C09
 
 mutual
@@ -88,5 +90,217 @@ theorem undocumented_refused :
 example : hasUnsupported (.node "Call" "Select" 0 [.node "BinOp" "FloorDiv" 0 [.node "Name" "" 0 [], .node "Constant" "" 0 []]]) = true := by decide
 example : hasUnsupported (.node "Compare" "Lt" 2 []) = true := by decide
 example : hasUnsupported (.node "BinOp" "Add" 0 [.node "Name" "" 0 [], .node "Constant" "" 0 []]) = false := by decide
+
+/-! ## wrong-arity calls -/
+
+/-- **C09.call_refuses_exactly** — a call of a callee with a fixed parameter list is refused
+exactly when the number of arguments differs from the number of declared parameters (in either
+direction) or the call style is not the declared one. -/
+theorem call_refuses_exactly (s : FnSpec) (c : CallSite) :
+    (∃ e, buildCall s c = .error e) ↔ callWellFormed s c = false := by
+  unfold buildCall callWellFormed
+  by_cases h : c.nargs = s.arity
+  · cases hm : c.asMethod <;> cases hs : s.isMethod <;> simp [h]
+  · simp [h]
+
+/-- **C09.surplus_argument_refused** — more arguments than parameters: refused (the surplus
+expression would otherwise appear nowhere in the generated code). -/
+theorem surplus_argument_refused (s : FnSpec) (c : CallSite) (h : s.arity < c.nargs) :
+    ∃ e, buildCall s c = .error e := by
+  rw [call_refuses_exactly]; unfold callWellFormed
+  have : (c.nargs == s.arity) = false := by simp; omega
+  simp [this]
+
+/-- **C09.missing_argument_refused** — fewer arguments than parameters: refused. -/
+theorem missing_argument_refused (s : FnSpec) (c : CallSite) (h : c.nargs < s.arity) :
+    ∃ e, buildCall s c = .error e := by
+  rw [call_refuses_exactly]; unfold callWellFormed
+  have : (c.nargs == s.arity) = false := by simp; omega
+  simp [this]
+
+example : callWellFormed ⟨"DeltaR", 4, false⟩ ⟨4, false⟩ = true := by decide
+example : callWellFormed ⟨"DeltaR", 4, false⟩ ⟨5, false⟩ = false := by decide
+example : (buildCall ⟨"getAttributeFloat", 1, true⟩ ⟨2, true⟩).toOption = none := by decide
+
+/-! ## malformed metadata dictionaries -/
+
+theorem find?_isSome_eq_any {α : Type} (p : α → Bool) (l : List α) : (l.find? p).isSome = l.any p := by
+  induction l with
+  | nil => rfl
+  | cons a l ih =>
+    simp only [List.find?_cons, List.any_cons]
+    cases h : p a <;> simp [ih]
+
+theorem firstUnexpected_isSome (closed : Option (List String)) (keys : List String) :
+    (firstUnexpected closed keys).isSome = anyUnexpected closed keys := by
+  cases closed with
+  | none => rfl
+  | some ws => simp only [firstUnexpected, anyUnexpected, find?_isSome_eq_any]
+
+theorem mdTail_error (u : Option String) (r : Option (List String)) (b : Bool) :
+    (∃ e, mdTail u r b = .error e) ↔ (u.isSome || r.isSome || b) = true := by
+  cases u <;> cases r <;> cases b <;> simp [mdTail]
+
+/-- **C09.md_refuses_exactly** — one metadata dictionary is refused exactly when it is malformed:
+no type, unknown type, key outside a whitelist, needed key missing, element-type contradiction. -/
+theorem md_refuses_exactly (m : Md) : (∃ e, mdCheck m = .error e) ↔ mdMalformed m = true := by
+  unfold mdCheck mdMalformed
+  cases hty : m.ty with
+  | none => simp
+  | some t =>
+    simp only []
+    cases hk : mdKinds.find? (fun k => k.ty == t) with
+    | none => simp
+    | some k =>
+      simp only []
+      by_cases hskip : (t == "inject_code" && m.keys.isEmpty) = true
+      · simp [hskip]
+      · simp only [hskip, if_false, Bool.not_false, Bool.true_and, Bool.false_eq_true]
+        rw [mdTail_error, firstUnexpected_isSome, find?_isSome_eq_any]
+
+/-- **C09.md_any_position** — a malformed dictionary anywhere in the list of metadata of a query
+makes the whole translation fail; a list without one passes. -/
+theorem md_any_position (ms : List Md) : (∃ e, mdAll ms = .error e) ↔ ms.any mdMalformed = true := by
+  induction ms with
+  | nil => simp [mdAll]
+  | cons m ms ih =>
+    simp only [mdAll, List.any_cons, Bool.or_eq_true]
+    cases hm : mdCheck m with
+    | error e =>
+      have := (md_refuses_exactly m).1 ⟨e, hm⟩
+      simp [this]
+    | ok u =>
+      have : mdMalformed m = false := by
+        cases hb : mdMalformed m with
+        | false => rfl
+        | true =>
+          obtain ⟨e, he⟩ := (md_refuses_exactly m).2 hb
+          rw [hm] at he; cases he
+      simp only [this, Bool.false_eq_true, false_or]
+      exact ih
+
+/-- **C09.md_kinds_documented** — the kinds of metadata the documentation describes are exactly
+the ones the table of the model knows. -/
+theorem md_kinds_documented :
+    mdKinds.map (·.ty) = ["add_method_type_info", "inject_code", "add_job_script", "add_cpp_function",
+      "add_atlas_event_collection_info", "add_cms_aod_event_collection_info", "add_cms_miniaod_event_collection_info",
+      "define_enum"] := by decide
+
+example : mdMalformed ⟨some "add_job_script", ["name"], false⟩ = true := by decide
+example : mdMalformed ⟨some "add_job_script", ["name", "script", "depends_on"], false⟩ = false := by decide
+example : mdMalformed ⟨some "add_job_scripts", ["name", "script"], false⟩ = true := by decide
+example : mdMalformed ⟨none, ["name"], false⟩ = true := by decide
+example : mdMalformed ⟨some "inject_code", ["name", "body_include"], false⟩ = true := by decide
+example : mdMalformed ⟨some "add_method_type_info", ["type_string", "method_name", "return_type_element"], false⟩ = false := by decide
+
+/-! ## contradictory `inject_code` blocks -/
+
+def InjConflict (l : List IB) : Prop := ∃ b₁ ∈ l, ∃ b₂ ∈ l, b₁.name = b₂.name ∧ b₁ ≠ b₂
+
+theorem injectConflict_iff (l : List IB) : injectConflict l = true ↔ InjConflict l := by
+  unfold injectConflict InjConflict
+  simp only [List.any_eq_true, Bool.and_eq_true, beq_iff_eq, bne_iff_ne]
+
+/-- the kept blocks `acc` summarise the blocks `seen` so far: same members, one per name -/
+structure InjInv (seen acc : List IB) : Prop where
+  sub : ∀ a ∈ acc, a ∈ seen
+  sup : ∀ s ∈ seen, s ∈ acc
+  one : ∀ a ∈ acc, ∀ b ∈ acc, a.name = b.name → a = b
+
+theorem injectAdd_spec : ∀ (bs seen acc : List IB), InjInv seen acc →
+    ((∃ e, injectAdd bs acc = .error e) ↔ InjConflict (seen ++ bs))
+  | [], seen, acc, h => by
+    simp only [injectAdd, List.append_nil]
+    constructor
+    · rintro ⟨e, he⟩; cases he
+    · rintro ⟨b₁, h₁, b₂, h₂, hn, hne⟩
+      exact absurd (h.one b₁ (h.sup _ h₁) b₂ (h.sup _ h₂) hn) hne
+  | b :: bs, seen, acc, h => by
+    unfold injectAdd
+    cases hf : acc.find? (fun a => a.name == b.name) with
+    | none =>
+      simp only []
+      have hno : ∀ a ∈ acc, a.name ≠ b.name := by
+        intro a ha hn
+        have := List.find?_eq_none.1 hf a ha
+        simp [hn] at this
+      have hinv : InjInv (seen ++ [b]) (acc ++ [b]) := by
+        refine ⟨?_, ?_, ?_⟩
+        · intro a ha
+          rcases List.mem_append.1 ha with ha | ha
+          · exact List.mem_append.2 (Or.inl (h.sub a ha))
+          · exact List.mem_append.2 (Or.inr ha)
+        · intro s hs
+          rcases List.mem_append.1 hs with hs | hs
+          · exact List.mem_append.2 (Or.inl (h.sup s hs))
+          · exact List.mem_append.2 (Or.inr hs)
+        · intro a ha c hc hn
+          rcases List.mem_append.1 ha with ha | ha <;> rcases List.mem_append.1 hc with hc | hc
+          · exact h.one a ha c hc hn
+          · have hc' : c = b := by simpa using hc
+            rw [hc'] at hn; exact absurd hn (hno a ha)
+          · have ha' : a = b := by simpa using ha
+            rw [ha'] at hn; exact absurd hn.symm (hno c hc)
+          · have ha' : a = b := by simpa using ha
+            have hc' : c = b := by simpa using hc
+            rw [ha', hc']
+      have := injectAdd_spec bs (seen ++ [b]) (acc ++ [b]) hinv
+      simpa [List.append_assoc] using this
+    | some a =>
+      simp only []
+      have ha : a ∈ acc := List.mem_of_find?_eq_some hf
+      have hna : a.name = b.name := by
+        have := List.find?_some hf
+        simpa using this
+      by_cases hab : a = b
+      · simp only [hab, if_true]
+        have hinv : InjInv (seen ++ [b]) acc := by
+          refine ⟨?_, ?_, h.one⟩
+          · intro x hx; exact List.mem_append.2 (Or.inl (h.sub x hx))
+          · intro s hs
+            rcases List.mem_append.1 hs with hs | hs
+            · exact h.sup s hs
+            · simp at hs; subst hs; rw [← hab]; exact ha
+        have := injectAdd_spec bs (seen ++ [b]) acc hinv
+        simpa [List.append_assoc] using this
+      · simp only [hab, if_false]
+        constructor
+        · intro _
+          exact ⟨a, List.mem_append.2 (Or.inl (h.sub a ha)), b, List.mem_append.2 (Or.inr (List.mem_cons_self ..)), hna, hab⟩
+        · intro _; exact ⟨_, rfl⟩
+
+/-- **C09.inject_refuses_exactly** — the `inject_code` blocks of a query are refused exactly
+when two of them carry one name and differ, wherever in the list the two stand. -/
+theorem inject_refuses_exactly (bs : List IB) :
+    (∃ e, injectAdd bs [] = .error e) ↔ injectConflict bs = true := by
+  rw [injectConflict_iff]
+  have := injectAdd_spec bs [] [] ⟨by simp, by simp, by simp⟩
+  simpa using this
+
+example : injectConflict [⟨"a", [["x.h"]]⟩, ⟨"b", [[]]⟩, ⟨"a", [["y.h"]]⟩] = true := by decide
+example : injectConflict [⟨"a", [["x.h"]]⟩, ⟨"b", [[]]⟩, ⟨"a", [["x.h"]]⟩] = false := by decide
+
+/-! ## contradictory, dangling or circular job-script blocks -/
+
+/-- **C09.jobscript_refuses_exactly** — the job-script blocks a query sends are refused exactly
+when two blocks of one name differ in their script, a dependency names a block that was never
+sent, or the dependencies form a circle (C15's model of `generate_script_block`, which sees every
+block of the query; corollary of `C15.complete`). In particular a second copy of a block is
+looked at, not dropped: it can introduce each of the three. -/
+theorem jobscript_refuses_exactly (bs : List C15.JB) :
+    (∃ e, C15.genScript bs = .error e) ↔ jobMalformed bs := by
+  unfold jobMalformed
+  rw [← C15.complete]
+  unfold C15.genScript
+  cases h : C15.genScriptOrder bs with
+  | error e => simp
+  | ok r => obtain ⟨a, b⟩ := r; simp
+
+example : jobMalformed [⟨"a", ["l1"], []⟩, ⟨"a", ["l2"], []⟩] :=
+  Or.inl (by decide)
+example : jobMalformed [⟨"a", ["l1"], []⟩, ⟨"a", ["l1"], ["never_sent"]⟩] :=
+  Or.inr (Or.inl (by decide))
+example : jobMalformedB [⟨"a", ["l1"], ["b"]⟩, ⟨"b", ["l2"], []⟩, ⟨"b", ["l2"], ["a"]⟩] = true := by decide
+example : jobMalformedB [⟨"a", ["l1"], ["b"]⟩, ⟨"b", ["l2"], []⟩, ⟨"b", ["l2"], []⟩] = false := by decide
 
 end FaxVerif.C09
